@@ -114,10 +114,19 @@ fn main() {
             let shards: usize = arg(&args, "--shards", 1);
             let dir: PathBuf = PathBuf::from(arg(&args, "--out", "out/traces".to_string()));
             let mut out = TraceOut::new(&dir, &family, shards);
+            // A panic that escapes a scenario is a defect of this harness (panics of the code under
+            // test are caught where they happen and logged as data): the scenario is cut short, the
+            // panic is reported to the orchestrator, the remaining scenarios still run.
+            let mut harness_panics: Vec<String> = Vec::new();
             for idx in first..first + count {
-                run_scenario(&mut out, &family, seed, idx, heavy, &scheds);
+                let r = std::panic::catch_unwind(std::panic::AssertUnwindSafe(|| run_scenario(&mut out, &family, seed, idx, heavy, &scheds)));
+                if let Err(e) = r {
+                    harness_panics.push(format!("{}/{}/{}: {}", family, seed, idx, panic_msg(e)));
+                }
             }
-            println!("{}", out.finish());
+            let mut v = out.finish();
+            v["harness_panics"] = serde_json::json!(harness_panics);
+            println!("{}", v);
         }
         "tree" => {
             // gv tree <corner index> <module name> : the decoded block tree of a corner file as a
